@@ -68,6 +68,18 @@ def run(tier):
         chk.sample(s)
     for m in r["mismatches"]:
         chk.violation(signature(m), m)
+    # identity of functions and cells inside running programs (a function's own name in its body, aliases, arrays
+    # holding the function, value arms): the `identity-*' cases of the scope suite (MC_C06, Lang!ValEq: functions and
+    # cells by id), replayed here
+    from vlib import langsuite as L
+    rs = L.run_suite(chk, "c06", tier)
+    n_id = 0
+    for line in open(os.path.join(os.path.dirname(rs["events_path"]), "c06_cases.ndjson")):
+        n_id += '"c06-identity' in line or '"identity-' in line
+    for m in rs["mismatches"]:
+        if "identity" in str(m.get("id", "")):
+            chk.violation({"kind": "identity:" + m["kind"], "program": m.get("program", ""), "what": m.get("what", "")[:200]}, m)
+    cov["identity_cases_in_programs"] = n_id
     chk.assumptions += [
         "TLC/SANY and the CommunityModules (Json, IOUtils, SequencesExt) are correct",
         "the harness' renderer of producer expressions as source text (harness/src/eqv.rs: render_expr, "
